@@ -15,7 +15,7 @@ import (
 
 type OblResult struct {
 	Obl      *Obl
-	Status   string // discharged | failed | undecided | vacuous | cover-ok
+	Status   string // discharged | failed | undecided | vacuous | cover-ok | cover-unknown
 	Solver   string
 	Secs     float64
 	Answers  map[string]string // solver -> sat/unsat/unknown/timeout/error
@@ -31,71 +31,61 @@ type solverSpec struct {
 }
 
 var solvers = []solverSpec{
-	{"z3-new", func(t int, f string) []string { return []string{"z3-new", "-smt2", f} },
-		func(t int) string { return fmt.Sprintf("(set-option :timeout %d)\n", t) }},
-	{"z3", func(t int, f string) []string { return []string{"z3", "-smt2", f} },
-		func(t int) string { return fmt.Sprintf("(set-option :timeout %d)\n", t) }},
+	{"z3-new", func(t int, f string) []string { return []string{"z3-new", fmt.Sprintf("-T:%d", t/1000+2), "-smt2", f} },
+		func(t int) string {
+			return fmt.Sprintf("(set-option :timeout %d)\n(set-option :produce-models true)\n", t)
+		}},
 	{"cvc5", func(t int, f string) []string {
-		return []string{"cvc5", "--incremental", fmt.Sprintf("--tlimit-per=%d", t), "--lang=smt2", f}
+		return []string{"cvc5", fmt.Sprintf("--tlimit=%d", t), "--lang=smt2", f}
 	}, func(t int) string { return "(set-option :produce-models true)\n(set-logic ALL)\n" }},
+	{"z3", func(t int, f string) []string { return []string{"z3", fmt.Sprintf("-T:%d", t/1000+2), "-smt2", f} },
+		func(t int) string {
+			return fmt.Sprintf("(set-option :timeout %d)\n(set-option :produce-models true)\n", t)
+		}},
 }
 
-func renderScript(vc *FuncVC, head string, obls []*Obl, sp solverSpec, timeoutMs int) string {
+// renderOne writes the script of a single obligation: prefix, the negated goal, check-sat, optional get-value.
+func renderOne(vc *FuncVC, head string, o *Obl) string {
 	var b strings.Builder
 	b.WriteString(head)
-	if !strings.Contains(head, "produce-models") {
-		b.WriteString("(set-option :produce-models true)\n")
-	}
 	b.WriteString(vc.Prefix)
-	for i, o := range obls {
-		if o.Vac && sp.name == "cvc5" {
-			continue // cover queries are satisfiable: cvc5 has no per-query timeout, z3 answers them
+	fmt.Fprintf(&b, "; obligation %s\n", o.Name)
+	for _, x := range o.Extra {
+		fmt.Fprintf(&b, "(assert %s)\n", x.S)
+	}
+	if o.Vac {
+		fmt.Fprintf(&b, "(assert %s)\n", o.Cond.S)
+	} else {
+		fmt.Fprintf(&b, "(assert %s)\n(assert (not %s))\n", o.Cond.S, o.Goal.S)
+	}
+	b.WriteString("(check-sat)\n")
+	if len(o.Values) > 0 && !o.Vac {
+		var names []string
+		for _, v := range o.Values {
+			names = append(names, v.T.S)
 		}
-		if o.Vac {
-			fmt.Fprintf(&b, "(set-option :timeout %d)\n", 1500)
-		}
-		fmt.Fprintf(&b, "(echo \"@@begin %d\")\n(push 1)\n", i)
-		if o.Vac {
-			fmt.Fprintf(&b, "(assert %s)\n", o.Cond.S)
-		} else {
-			fmt.Fprintf(&b, "(assert %s)\n(assert (not %s))\n", o.Cond.S, o.Goal.S)
-		}
-		b.WriteString("(check-sat)\n")
-		if len(o.Values) > 0 && !o.Vac {
-			var names []string
-			for _, v := range o.Values {
-				names = append(names, v.T.S)
-			}
-			fmt.Fprintf(&b, "(echo \"@@values\")\n(get-value (%s))\n", strings.Join(names, " "))
-		}
-		fmt.Fprintf(&b, "(pop 1)\n(echo \"@@end %d\")\n", i)
-		if o.Vac {
-			fmt.Fprintf(&b, "(set-option :timeout %d)\n", timeoutMs)
-		}
+		fmt.Fprintf(&b, "(echo \"@@values\")\n(get-value (%s))\n", strings.Join(names, " "))
 	}
 	return b.String()
 }
 
-var beginRe = regexp.MustCompile(`^@@begin (\d+)$`)
+var fileSeq int
+var fileMu sync.Mutex
 
-// runSolver runs one solver over the whole script of a function and returns the answer per obligation.
-func runSolver(ctx context.Context, sp solverSpec, vc *FuncVC, obls []*Obl, timeoutMs int, dir string) (answers []string, raws []string, secs []float64) {
-	answers = make([]string, len(obls))
-	raws = make([]string, len(obls))
-	secs = make([]float64, len(obls))
-	for i := range answers {
-		answers[i] = "error"
-		if obls[i].Vac && sp.name == "cvc5" {
-			answers[i] = "skipped"
-		}
+// runOne runs one solver on one obligation in its own process under a hard wall-clock limit.
+func runOne(ctx context.Context, sp solverSpec, vc *FuncVC, o *Obl, timeoutMs int, dir string) (answer, raw string, secs float64) {
+	fileMu.Lock()
+	fileSeq++
+	n := fileSeq
+	fileMu.Unlock()
+	file := filepath.Join(dir, fmt.Sprintf("o%d.%s.smt2", n, sp.name))
+	if err := os.WriteFile(file, []byte(renderOne(vc, sp.head(timeoutMs), o)), 0o644); err != nil {
+		return "error", err.Error(), 0
 	}
-	script := renderScript(vc, sp.head(timeoutMs), obls, sp, timeoutMs)
-	file := filepath.Join(dir, sanitize(vc.Label)+"."+sp.name+".smt2")
-	if err := os.WriteFile(file, []byte(script), 0o644); err != nil {
-		return
+	if os.Getenv("CEDAR_KEEP_SMT") == "" {
+		defer os.Remove(file)
 	}
-	total := time.Duration(timeoutMs*(len(obls)+1))*time.Millisecond + 20*time.Second
-	cctx, cancel := context.WithTimeout(ctx, total)
+	cctx, cancel := context.WithTimeout(ctx, time.Duration(timeoutMs)*time.Millisecond+3*time.Second)
 	defer cancel()
 	args := sp.cmd(timeoutMs, file)
 	cmd := exec.CommandContext(cctx, args[0], args[1:]...)
@@ -104,59 +94,23 @@ func runSolver(ctx context.Context, sp solverSpec, vc *FuncVC, obls []*Obl, time
 	cmd.Stderr = &out
 	start := time.Now()
 	_ = cmd.Run()
-	elapsed := time.Since(start).Seconds()
-	if ctx.Err() != nil {
-		for i := range answers {
-			if answers[i] == "error" {
-				answers[i] = "cancelled"
-			}
+	secs = time.Since(start).Seconds()
+	raw = out.String()
+	answer = "error"
+	for _, l := range strings.Split(raw, "\n") {
+		l = strings.TrimSpace(l)
+		if l == "sat" || l == "unsat" || l == "unknown" || l == "timeout" {
+			answer = l
+			break
 		}
 	}
-	cur := -1
-	var buf []string
-	flush := func() {
-		if cur >= 0 && cur < len(obls) {
-			raws[cur] = strings.Join(buf, "\n")
-			ans := "error"
-			for _, l := range buf {
-				l = strings.TrimSpace(l)
-				if l == "sat" || l == "unsat" || l == "unknown" || l == "timeout" {
-					ans = l
-					break
-				}
-			}
-			if ans == "error" && strings.Contains(raws[cur], "timeout") {
-				ans = "timeout"
-			}
-			answers[cur] = ans
+	if answer == "error" {
+		if cctx.Err() != nil || strings.Contains(raw, "timeout") || strings.Contains(raw, "interrupted") {
+			answer = "timeout"
 		}
 	}
-	for _, line := range strings.Split(out.String(), "\n") {
-		t := strings.Trim(strings.TrimSpace(line), "\"")
-		if m := beginRe.FindStringSubmatch(t); m != nil {
-			fmt.Sscanf(m[1], "%d", &cur)
-			buf = nil
-			continue
-		}
-		if strings.HasPrefix(t, "@@end") {
-			flush()
-			cur = -1
-			continue
-		}
-		if cur >= 0 {
-			buf = append(buf, line)
-		}
-	}
-	if cur >= 0 {
-		flush()
-		for i := cur; i < len(obls); i++ {
-			if answers[i] == "error" {
-				answers[i] = "timeout"
-			}
-		}
-	}
-	for i := range secs {
-		secs[i] = elapsed / float64(len(obls)+1)
+	if ctx.Err() != nil && answer == "error" {
+		answer = "cancelled"
 	}
 	return
 }
@@ -188,116 +142,103 @@ func parseValues(raw string, o *Obl) map[string]string {
 			m[name] = val
 		}
 	}
-	// complex terms: positional fallback
 	return m
 }
 
-// solveFunc races the solvers on the obligations of one function.
-func solveFunc(ctx context.Context, vc *FuncVC, timeoutMs int, dir string, sem chan struct{}, agree bool) []*OblResult {
-	obls := vc.Obls
-	results := make([]*OblResult, len(obls))
-	for i, o := range obls {
-		results[i] = &OblResult{Obl: o, Answers: map[string]string{}}
-	}
-	if len(obls) == 0 {
-		return results
-	}
-	type solverOut struct {
-		name    string
-		answers []string
-		raws    []string
-		secs    []float64
-	}
+// solveObl decides one obligation: z3 5.1 first, then cvc5 and z3 4.8 in parallel if it did not decide.
+// With agree=true all three run and a sat/unsat disagreement is recorded.
+func solveObl(ctx context.Context, vc *FuncVC, o *Obl, timeoutMs int, dir string, sem chan struct{}, agree bool) *OblResult {
+	res := &OblResult{Obl: o, Answers: map[string]string{}}
 	var mu sync.Mutex
-	var outs []solverOut
-	var wg sync.WaitGroup
-	cctx, cancel := context.WithCancel(ctx)
-	defer cancel()
-	decided := func() bool {
+	run := func(sp solverSpec, t int) string {
+		sem <- struct{}{}
+		a, raw, secs := runOne(ctx, sp, vc, o, t, dir)
+		<-sem
 		mu.Lock()
 		defer mu.Unlock()
-		for i, o := range obls {
-			ok := false
-			for _, so := range outs {
-				a := so.answers[i]
-				if o.Vac && (a == "unknown" || a == "timeout") {
-					ok = true
-				}
-				if o.Vac && (a == "sat" || a == "unsat") || !o.Vac && (a == "unsat" || a == "sat") {
-					ok = true
-				}
+		res.Answers[sp.name] = a
+		res.Secs += secs
+		if a == "sat" || a == "unsat" {
+			if res.Solver == "" {
+				res.Solver = sp.name
 			}
-			if !ok {
-				return false
+			if a == "sat" {
+				res.Raw = raw
+			}
+		} else if res.Raw == "" && a != "cancelled" {
+			res.Raw = raw
+		}
+		return a
+	}
+	if o.Vac {
+		a := run(solvers[0], 1500)
+		switch a {
+		case "sat":
+			res.Status = "cover-ok"
+		case "unsat":
+			// confirm with a second solver before calling a contract vacuous
+			b := run(solvers[2], 3000)
+			if b == "sat" {
+				res.Status = "cover-ok"
+			} else {
+				res.Status = "vacuous"
+			}
+		default:
+			res.Status = "cover-unknown"
+		}
+		return res
+	}
+	first := run(solvers[0], timeoutMs)
+	if agree || (first != "unsat" && first != "sat") {
+		var wg sync.WaitGroup
+		for _, sp := range solvers[1:] {
+			wg.Add(1)
+			go func(sp solverSpec) {
+				defer wg.Done()
+				run(sp, timeoutMs)
+			}(sp)
+		}
+		wg.Wait()
+	}
+	sat, unsat := "", ""
+	for _, sp := range solvers {
+		switch res.Answers[sp.name] {
+		case "sat":
+			if sat == "" {
+				sat = sp.name
+			}
+		case "unsat":
+			if unsat == "" {
+				unsat = sp.name
 			}
 		}
-		return true
 	}
-	for _, sp := range solvers {
+	switch {
+	case sat != "" && unsat != "":
+		res.Disagree = true
+		res.Status, res.Solver = "failed", sat
+	case unsat != "":
+		res.Status, res.Solver = "discharged", unsat
+	case sat != "":
+		res.Status, res.Solver = "failed", sat
+		res.Model = parseValues(res.Raw, o)
+	default:
+		res.Status = "undecided"
+	}
+	return res
+}
+
+// solveFunc decides all obligations of one function, each in its own solver processes.
+func solveFunc(ctx context.Context, vc *FuncVC, timeoutMs int, dir string, sem chan struct{}, agree bool) []*OblResult {
+	results := make([]*OblResult, len(vc.Obls))
+	var wg sync.WaitGroup
+	for i, o := range vc.Obls {
 		wg.Add(1)
-		go func(sp solverSpec) {
+		go func(i int, o *Obl) {
 			defer wg.Done()
-			sem <- struct{}{}
-			defer func() { <-sem }()
-			if cctx.Err() != nil {
-				return
-			}
-			a, r, s := runSolver(cctx, sp, vc, obls, timeoutMs, dir)
-			mu.Lock()
-			outs = append(outs, solverOut{sp.name, a, r, s})
-			mu.Unlock()
-			if !agree && decided() {
-				cancel()
-			}
-		}(sp)
+			results[i] = solveObl(ctx, vc, o, timeoutMs, dir, sem, agree)
+		}(i, o)
 	}
 	wg.Wait()
-	for i, o := range obls {
-		res := results[i]
-		var sat, unsat string
-		for _, so := range outs {
-			a := so.answers[i]
-			res.Answers[so.name] = a
-			if a == "sat" && sat == "" {
-				sat = so.name
-				res.Raw = so.raws[i]
-				res.Secs = so.secs[i]
-			}
-			if a == "unsat" && unsat == "" {
-				unsat = so.name
-				if res.Secs == 0 {
-					res.Secs = so.secs[i]
-				}
-			}
-		}
-		if sat != "" && unsat != "" {
-			res.Disagree = true
-		}
-		if o.Vac {
-			switch {
-			case sat != "":
-				res.Status, res.Solver = "cover-ok", sat
-			case unsat != "":
-				res.Status, res.Solver = "vacuous", unsat
-			default:
-				res.Status = "cover-unknown" // not shown unsatisfiable: the contract is not vacuous as far as the solvers can tell
-			}
-			continue
-		}
-		switch {
-		case unsat != "" && sat == "":
-			res.Status, res.Solver = "discharged", unsat
-		case sat != "":
-			res.Status, res.Solver = "failed", sat
-			res.Model = parseValues(res.Raw, o)
-		default:
-			res.Status = "undecided"
-			for _, so := range outs {
-				if so.raws[i] != "" {
-					res.Raw = so.raws[i]
-				}
-			}
-		}
-	}
 	return results
 }
